@@ -337,6 +337,55 @@ def run_hist(ctx, doubles):
                              % (v, les, labels[0]), {'bounds_bits': [lib.bits_of(x) for x in bounds], 'variant': [repr(x) for x in v]})
 
 
+def run_ambient(ctx, doubles):
+    """the rendering is a function of the double alone: not of the ambient decimal context (precision, rounding, traps — an
+    application may narrow it for its own arithmetic), not of the locale-free repr a float SUBCLASS chooses for itself
+    (`class Seconds(float)` with its own __repr__/__str__ is still that double when it is a sample value or a bucket bound)"""
+    import decimal
+    from prometheus_client import utils
+
+    class Loud(float):
+        def __repr__(self): return 'Loud(%s)' % float.__repr__(self)
+        __str__ = __repr__
+
+    class Rounded(float):
+        def __repr__(self): return '%.3g' % float(self)
+        def __str__(self): return '%.3g' % float(self)
+        def __format__(self, spec): return '%.3g' % float(self)
+
+    ctxs = [decimal.Context(prec=3), decimal.Context(prec=6, rounding=decimal.ROUND_DOWN),
+            decimal.Context(prec=1, rounding=decimal.ROUND_UP), decimal.Context(prec=9, traps=[decimal.Inexact, decimal.Rounded])]
+    pick = [d for d in doubles if d == d and abs(d) != math.inf]
+    big = [d for d in pick if d >= 1e6][:120]
+    pick = big + pick[:120] + [1234567.0, 123456789012.0, 1e15 + 1, 9007199254740993.0, 1234567.891, 0.1, -2.5]
+    for d in pick:
+        try:
+            plain = utils.floatToGoString(d)
+        except Exception:
+            continue  # run_cases reports it
+        ctx.case(nontrivial_key=('ambient', lib.bits_of(d)))
+        ctx.count('ambient-decimal-context/float-subclass')
+        for i, dc in enumerate(ctxs):
+            try:
+                with decimal.localcontext(dc):
+                    got = utils.floatToGoString(d)
+            except Exception as e:
+                got = 'raised ' + type(e).__name__
+            if got != plain:
+                ctx.fail('C13:ambient-decimal-context', 'floatToGoString(%r) = %r, but %r under decimal context #%d (prec=%d, %s)'
+                         % (d, plain, got, i, dc.prec, dc.rounding), {'bits': lib.bits_of(d), 'ambient': i})
+                break
+        for cls in (Loud, Rounded):
+            try:
+                got = utils.floatToGoString(cls(d))
+            except Exception as e:
+                got = 'raised ' + type(e).__name__
+            if got != plain:
+                ctx.fail('C13:float-subclass', 'floatToGoString(%s(%r)) = %r, but the same double as a plain float renders %r'
+                         % (cls.__name__, d, got, plain), {'bits': lib.bits_of(d), 'ambient': cls.__name__})
+                break
+
+
 def utils_go(b):
     from prometheus_client import utils
     return utils.floatToGoString(b)
@@ -352,6 +401,7 @@ def run(ctx):
     ds = gen_doubles(ctx, n)
     run_cases(ctx, ds)
     run_ints(ctx)
+    run_ambient(ctx, ds)
     # through the expositions: signed zeros, NaN, infinities and neighbours side by side in one scrape
     rng = ctx.rng
     mix = [0.0, -0.0, 1.0, -1.0, math.nan, math.inf, -math.inf, 5e-324, -5e-324, 1e6, 1000000.0000000001, 1e16, 123456789.125]
@@ -369,6 +419,8 @@ def replay(ctx, case):
         run_hist(ctx, [lib.from_bits(int(b)) for b in c['bounds_bits']])
     elif 'bits_list' in c:
         run_expo(ctx, [lib.from_bits(int(b)) for b in c['bits_list']])
+    elif 'ambient' in c:
+        run_ambient(ctx, [lib.from_bits(int(c['bits']))])
     else:
         d = lib.from_bits(int(c['bits']))
         run_cases(ctx, [d])
